@@ -686,3 +686,127 @@ Proof. intro S. apply unquote_quote. apply (unquote_utf8 (length b)); auto. Qed.
 Corollary escape_switch_same_value b : sbody b ->
   unquote (quote true (unquote b)) = unquote (quote false (unquote b)).
 Proof. intro S. now rewrite !unquote_quote_unquote. Qed.
+
+(* ---- with EscapeHTML on, none of < > & U+2028 U+2029 appears raw in what is written ---- *)
+Definition ls_head (s : bytes) : bool :=
+  match s with xe2 :: x80 :: xa8 :: _ | xe2 :: x80 :: xa9 :: _ => true | _ => false end.
+Definition html_char (c : byte) : bool := match c with x3c | x3e | x26 => true | _ => false end.
+
+Fixpoint has_raw (s : bytes) : bool :=
+  match s with
+  | [] => false
+  | c :: r => html_char c || ls_head s || has_raw r
+  end.
+
+Lemma has_raw_cons_plain c r : he_special c = false -> has_raw (c :: r) = has_raw r.
+Proof. intro H. cbn [has_raw]. destruct c; try discriminate; reflexivity. Qed.
+
+Lemma has_raw_app_plain p s : forallb (fun c => negb (he_special c)) p = true -> has_raw (p ++ s) = has_raw s.
+Proof.
+  induction p as [|c p IH]; intro H; [reflexivity|]. cbn [forallb] in H. apply andb_prop in H as [H1 H2].
+  cbn [app]. rewrite has_raw_cons_plain by (destruct (he_special c); auto; discriminate). auto.
+Qed.
+
+(* the first byte of an escaped text is the first byte of the text, or a backslash *)
+Lemma he_head r : match r, html_escape r with
+                  | [], [] => True
+                  | c :: _, d :: _ => d = c \/ d = x5c
+                  | _, _ => False
+                  end.
+Proof.
+  destruct r as [|c r]; [exact I|]. destruct (he_special c) eqn:S.
+  - destruct c; try discriminate; try (right; reflexivity).
+    destruct r as [|c1 r1]; [left; reflexivity|]. destruct c1; try (left; reflexivity).
+    destruct r1 as [|c2 r2]; [left; reflexivity|]. destruct c2; try (left; reflexivity); right; reflexivity.
+  - rewrite he_plain by exact S. left. reflexivity.
+Qed.
+
+Theorem html_escape_no_raw : forall n b, (length b <= n)%nat -> has_raw (html_escape b) = false.
+Proof.
+  induction n as [|n IH]; intros b L.
+  { destruct b; [reflexivity | simpl in L; lia]. }
+  destruct b as [|c r]; [reflexivity|].
+  assert (IHr : has_raw (html_escape r) = false) by (apply IH; simpl in L; lia).
+  destruct (he_special c) eqn:S.
+  - destruct c; try discriminate.
+    + (* & *) change (html_escape (x26 :: r)) with ([x5c; x75; x30; x30; x32; x36] ++ html_escape r).
+      rewrite has_raw_app_plain by reflexivity. exact IHr.
+    + (* < *) change (html_escape (x3c :: r)) with ([x5c; x75; x30; x30; x33; x63] ++ html_escape r).
+      rewrite has_raw_app_plain by reflexivity. exact IHr.
+    + (* > *) change (html_escape (x3e :: r)) with ([x5c; x75; x30; x30; x33; x65] ++ html_escape r).
+      rewrite has_raw_app_plain by reflexivity. exact IHr.
+    + (* E2 *)
+      destruct (is_ls (xe2 :: r)) as [[d r2]|] eqn:Ls.
+      * unfold is_ls in Ls. destruct r as [|c1 r1]; try discriminate. destruct c1; try discriminate.
+        destruct r1 as [|c2 r2']; try discriminate.
+        assert (IH2 : has_raw (html_escape r2') = false) by (apply IH; simpl in L; lia).
+        destruct c2; try discriminate.
+        -- change (html_escape (xe2 :: x80 :: xa8 :: r2')) with ([x5c; x75; x32; x30; x32; x38] ++ html_escape r2').
+           rewrite has_raw_app_plain by reflexivity. exact IH2.
+        -- change (html_escape (xe2 :: x80 :: xa9 :: r2')) with ([x5c; x75; x32; x30; x32; x39] ++ html_escape r2').
+           rewrite has_raw_app_plain by reflexivity. exact IH2.
+      * rewrite (he_lead xe2 r eq_refl Ls). cbn [has_raw html_char orb]. rewrite IHr, orb_false_r.
+        (* the escaped rest does not start with 80 A8 / 80 A9 *)
+        unfold is_ls in Ls. unfold ls_head.
+        destruct r as [|c1 r1]; [reflexivity|].
+        pose proof (he_head (c1 :: r1)) as Hd. destruct (html_escape (c1 :: r1)) as [|d1 t1] eqn:E1; [reflexivity|].
+        destruct (Byte.eqb d1 x80) eqn:Q; [|destruct d1; try reflexivity; discriminate].
+        apply Byte.byte_dec_bl in Q. subst d1. cbv iota beta in Hd. rewrite E1 in Hd. destruct Hd as [Hd|Hd]; [|discriminate]. subst c1.
+        rewrite (he_plain x80) in E1 by reflexivity. inversion E1; subst t1.
+        destruct r1 as [|c2 r2']; [reflexivity|].
+        pose proof (he_head (c2 :: r2')) as Hd2. cbv iota beta in Hd2. destruct (html_escape (c2 :: r2')) as [|d2 t2]; [reflexivity|].
+        destruct Hd2 as [-> | ->]; [|reflexivity]. destruct c2; try reflexivity; discriminate.
+  - rewrite he_plain by exact S. rewrite has_raw_cons_plain by exact S. exact IHr.
+Qed.
+
+(* ---- trees: escaping a compacted text never changes its value ---- *)
+From JP Require Import ImplV5 Abs.
+
+Fixpoint tsb (t : tjson) : Prop :=
+  match t with
+  | TStr b => sbody b
+  | TArr l => (fix all (l : list tjson) : Prop := match l with [] => True | x :: r => tsb x /\ all r end) l
+  | TObj ms => (fix all (m : list (bytes * tjson)) : Prop :=
+                  match m with [] => True | kv :: r => (sbody (fst kv) /\ tsb (snd kv)) /\ all r end) ms
+  | _ => True
+  end.
+
+Lemma tsb_arr l : tsb (TArr l) <-> Forall tsb l.
+Proof.
+  cbn [tsb]. split; intro H.
+  - induction l as [|x l IH]; constructor; destruct H; auto.
+  - induction l as [|x l IH]; [exact I|]. inversion H as [|? ? Ha Hb]; subst. split; [exact Ha | apply IH; exact Hb].
+Qed.
+
+Lemma tsb_obj ms : tsb (TObj ms) <-> Forall (fun kv => sbody (fst kv) /\ tsb (snd kv)) ms.
+Proof.
+  cbn [tsb]. split; intro H.
+  - induction ms as [|x l IH]; constructor; destruct H; auto.
+  - induction ms as [|x l IH]; [exact I|]. inversion H as [|? ? Ha Hb]; subst. split; [exact Ha | apply IH; exact Hb].
+Qed.
+
+Lemma escape_tree_true t :
+  escape_tree true t =
+  match t with
+  | TStr b => TStr (html_escape b)
+  | TArr l => TArr (map (escape_tree true) l)
+  | TObj ms => TObj (map (fun kv => (html_escape (fst kv), escape_tree true (snd kv))) ms)
+  | _ => t
+  end.
+Proof. destruct t; reflexivity. Qed.
+
+Theorem escape_tree_den t : tsb t -> den (escape_tree true t) = den t.
+Proof.
+  induction t using tjson_rect'; intro S; try reflexivity.
+  - rewrite escape_tree_true. cbn [den]. f_equal. apply (unquote_html_escape (length s)); auto.
+  - rewrite escape_tree_true. cbn [den]. f_equal. rewrite map_map. apply map_ext_in. intros x Hx.
+    apply tsb_arr in S. rewrite Forall_forall in H, S. apply (H x Hx). apply (S x Hx).
+  - rewrite escape_tree_true. cbn [den]. f_equal. f_equal. rewrite map_map. apply map_ext_in. intros kv Hk.
+    apply tsb_obj in S. rewrite Forall_forall in H, S. destruct (S kv Hk) as [S1 S2]. cbn [fst snd]. f_equal.
+    + apply (unquote_html_escape (length (fst kv))); auto.
+    + apply (H kv Hk). exact S2.
+Qed.
+
+(* the key list of an object is its member names, decoded, in document order *)
+Theorem keys_in_document_order ms : fst (doc_of ms) = map (fun kv => unquote (fst kv)) ms.
+Proof. reflexivity. Qed.
